@@ -68,7 +68,7 @@ def gen_exhaustive(tier, rng):
                 yield ('exhaustive_ternary', 1, [straight([a, b, c, Id('substring$')]), [], ''])
                 yield ('exhaustive_ternary', 1, [straight([a, b, c, Id('if$')]), [], ''])
     names = [Sx(''), Sx('A. B and C D'), Sx('a'), Sx('{x and y} and von Z, Jr, Q'), Sx('Donald Ervin Knuth and de la Fontaine, Jean'), I(1), F(I(1))]
-    ns = INTS + [I(2), Sx('a'), Q('gi')]
+    ns = INTS + [I(2), I(-1), I(-3), I(4), Sx('a'), Q('gi')]
     fmts = [Sx('{ff~}{vv~}{ll}{, jj}'), Sx('{f.~}{ll}'), Sx('{ff~~}{vv~~}{ll}'), Sx(''), Sx('{'), Sx('a'), I(1), F(I(1)), Q('gi'), Q('skip$')]
     for a in names:
         for b in ns:
@@ -225,7 +225,7 @@ class Ctx(object):
         if k < 0.86:
             names = self.pick(NAME_POOL[:5])
             n = 1 if r.random() < 0.7 else 2
-            if r.random() < 0.04: n = r.choice([0, 5, -1])
+            if r.random() < 0.06: n = r.choice([0, 5, -1, -2, 3])
             return [Sx(names), I(n), Sx(self.pick(FMT_POOL)), Id('format.name$')]
         if k < 0.95: return self.int_e(d - 1) + [F(*self.str_e(d - 1)), F(*self.str_e(d - 1)), Id('if$')]
         return self.str_e(d - 1) + self.str_e(d - 1) + [Id('swap$'), Id('pop$')]
@@ -424,7 +424,7 @@ def probe_header(with_default):
     def typ(name, tag):
         return cmd('FUNCTION', [Id(name)], [Sx(tag), Id('write$'), Id('newline$')])
     sep = [Sx(':'), Id('*')]
-    cmds = [cmd('ENTRY', [Id('title'), Id('note')], [Id('n'), Id('m')], [Id('t')]), cmd('INTEGERS', [Id('g')]), cmd('MACRO', [Id('emp')], [Sx('')]),
+    cmds = [cmd('ENTRY', [Id('title'), Id('note')], [Id('n'), Id('m')], [Id('t')]), cmd('INTEGERS', [Id('g')]), cmd('MACRO', [Id('emp')], [Sx('')]), cmd('MACRO', [Id('jan')], [Sx('January')]),
             typ('misc', '[M]'), typ('book', '[B]')] + ([typ('default.type', '[D]')] if with_default else []) + [
             cmd('FUNCTION', [Id('probe.show')], [Sx('<'), Id('cite$'), Id('*')] + sep + [Id('n'), Id('int.to.str$'), Id('*')] + sep +
                                                 [Id('sort.key$'), Id('*')] + sep + [Id('m'), Id('int.to.str$'), Id('*')] + sep + [Id('t'), Id('*')] + sep +
@@ -454,13 +454,15 @@ def order_probe(rng):
         k = rng.random()
         cmds += PROBE_STEPS['sorted' if k < 0.3 else 'iterate' if k < 0.45 else 'reverse' if k < 0.65 else 'count' if k < 0.8 else 'reset' if k < 0.9 else 'reset_rev']
     keys = rng.sample(['k1', 'k2', 'k3', 'k4', 'k5', 'k6', 'k7'], rng.randint(0, 7))
-    lines = []
+    lines = ['@string{mine = "Mine"}\n'] if rng.random() < 0.5 else []
     for k in keys:
         fields = []
         if rng.random() >= 0.15:
             fields.append('title = {%s}' % rng.choice(PROBE_TITLES))
         if rng.random() < 0.65:      # present, often empty in one of the ways a .bib file can say it
-            fields.append('note = %s' % rng.choice(['{}', '""', 'emp', '{  }', '" "', '{x}', '"N"', '{}', 'emp # ""']))
+            fields.append('note = %s' % rng.choice(['{}', '""', 'emp', '{  }', '" "', '{x}', '"N"', '{}', 'emp # ""',
+                                                      # macros the style defines (jan, emp), the database may define (mine), nobody defines (the other months!)
+                                                      'jan', 'JAN # " x"', 'feb', 'Feb # " y"', 'dec', 'mine', '"a" # nope # "b"', 'Jan # mine']))
         if rng.random() < 0.35:
             fields.append('crossref = {%s}' % rng.choice(['p1', 'p2', 'p3']))
         lines.append('@%s{%s}\n' % (rng.choice(['misc', 'misc', 'book', 'BOOK', 'weird']), ', '.join([k] + fields)))
